@@ -27,6 +27,11 @@ def sh(cmd, cwd=None, env=None, timeout=7200):
 
 
 def main(argv):
+    import signal
+
+    def _term(signum, frame):
+        raise SystemExit(143)  # so that the finally-clause restores the worktree
+    signal.signal(signal.SIGTERM, _term)
     prop, name = argv[0], argv[1]
     no_tests = "--no-tests" in argv
     tests_only = "--tests-only" in argv
